@@ -31,6 +31,10 @@ class BuckGophermapHandler(BaseHandler):
                 and stat.S_ISREG(self.statresult[stat.ST_MODE])
                 and self.getselector().endswith(".gophermap")
             ):
+                # A gophermap file is served as a menu, so it is one: not
+                # a text document of the file's MIME type.
+                self.entry.settype("1")
+                self.entry.setmimetype("application/gopher-menu")
                 self.entry.populatefromvfs(self.vfs, self.getselector())
             else:
                 self.entry.populatefromfs(
